@@ -143,6 +143,14 @@ fn main() {
                 run = Run::new("C09", &tier, "exploration");
                 engines::c09::run(&mut run);
             }
+            "C19" => {
+                run = Run::new("C19", &tier, "model_checking");
+                engines::c19::run(&mut run);
+            }
+            "C18" => {
+                run = Run::new("C18", &tier, "model_checking");
+                engines::c18::run(&mut run);
+            }
             "C10" => {
                 run = Run::new("C10", &tier, "model_checking");
                 engines::c10::run(&mut run);
@@ -177,6 +185,8 @@ fn replay(dir: &str) -> i32 {
         "c17" => engines::c17::replay(case),
         "c13" => engines::c13::replay(case),
         "faults" => engines::faults::replay(case),
+        "c18" => engines::c18::replay(case),
+        "c19" | "c19-law" => engines::c19::replay(case),
         "c09" | "c09-plant" => engines::c09::replay(case),
         "c14" => engines::c14::replay(case),
         "c08" => engines::c08::replay(case),
